@@ -44,7 +44,11 @@ KIND_V = {KNONE: 'KNone', KASYNC: 'KAsync', KSYNC: 'KSync'}
 QUEUE_FULL = 1
 DOOMED_TIMEOUT = 0.02       # real seconds: a sync call that the schedule lets time out
 LONG_TIMEOUT = 60.0         # real seconds: never expected to expire
-DRIVER_WAIT = 20.0          # real seconds the driver waits for a thread before declaring a hang
+DRIVER_WAIT = 8.0          # real seconds the driver waits for a thread before declaring a hang
+
+
+class HarnessStuck(Exception):
+    pass
 
 
 def load_impl():
@@ -290,7 +294,7 @@ class CaseRun(object):
         try:
             cb = d.putdone.get(timeout=DRIVER_WAIT)
         except _queue.Empty:
-            raise RuntimeError('harness: put of thread %d did not return' % i)
+            raise HarnessStuck('the put of thread %d did not return within %.0f s' % (i, DRIVER_WAIT))
         accepted = len(d.q) == before + 1
         self.calls[cid]['accepted'] = accepted
         if accepted:
@@ -309,7 +313,7 @@ class CaseRun(object):
         try:
             rep = self.reports[i].get(timeout=DRIVER_WAIT)
         except _queue.Empty:
-            raise RuntimeError('harness: thread %d did not leave event.wait' % i)
+            raise HarnessStuck('sync call %d of thread %d did not leave event.wait within %.0f s although its event is set or its timeout expired' % (w['cid'], i, DRIVER_WAIT))
         kind, val = rep
         if kind == 'ret':
             out = (i, w['cid'], 0, opt(val))
@@ -404,6 +408,7 @@ class CaseRun(object):
                 t.daemon = True
                 t.start()
                 self.threads.append(t)
+        self.aborted = None
         try:
             steps = 0
             while not self.quiescent():
@@ -422,7 +427,7 @@ class CaseRun(object):
                     act = a
                 steps += 1
                 if steps > max_steps + 400:
-                    raise RuntimeError('harness: case does not drain')
+                    raise HarnessStuck('case does not drain: some call is never completed')
                 kind = act[0]
                 if kind == 'put':
                     self.do_put(act[1])
@@ -440,19 +445,25 @@ class CaseRun(object):
             # two more ticks: nothing may change any more
             self.do_tick(3)
             self.do_get(1)
+        except HarnessStuck as e:
+            # a caller thread did not come back: the case ends here (the groups recorded so far are
+            # still compared with the model); reported by the monitor below
+            self.aborted = str(e)
         finally:
             for i in range(n):
                 if self.threaded[i]:
                     self.jobs[i].put(None)
             for t in self.threads:
-                t.join(DRIVER_WAIT)
+                t.join(1.0 if self.aborted else DRIVER_WAIT)
             self.drv.close()
         self.problems = monitor(self.calls, self.drv.obj.applied, self.drv.obj.results, self.cb_log,
-                                self.raw_outcomes, self.drv.escaped)
+                                self.raw_outcomes, self.drv.escaped, drained=not self.aborted)
+        if self.aborted:
+            self.problems.insert(0, self.aborted)
         self.table = [(i, [(p, k) for p, k, _ in prog]) for i, prog in enumerate(self.progs)]
         self.meta = {'seed': self.seed, 'nthreads': n, 'max_size': self.max_size, 'batch': self.batch,
                      'progs': [[list(c) for c in prog] for prog in self.progs], 'labels': self.labels,
-                     'accepted': self.n_accepted, 'rejected': self.n_rejected,
+                     'aborted': self.aborted, 'accepted': self.n_accepted, 'rejected': self.n_rejected,
                      'outcomes': [list(map(str, o)) for o in self.raw_outcomes]}
         return self
 
